@@ -3,7 +3,6 @@
   Property theorems only.  Model and spec: `Manticore/Model/C11.lean`.
 -/
 import Manticore.Model.C11
-import Manticore.Props.C11.Consts
 namespace Manticore.C11
 open Manticore
 
